@@ -111,3 +111,36 @@ void h_pair(void)
   VERIF_CANARY;
 }
 #endif
+
+/* ------------------------------------------------------------ the containment constructor, one child cluster: the child's lower boundary
+ * variable stays at least padding.min + margin.min above the parent's lower one, its upper boundary variable at least padding.max +
+ * margin.max below the parent's upper one -- in X and in Y.  (Entries: variable, dimension, offset, side, boundary variable.) */
+#if defined(JOB_child_body)
+struct PACKED ClusterM { unsigned clusterVarId; };
+static struct Box4 the_margin;
+void w_margin(void *cluster, void *box) { *(struct Box4 *)box = the_margin; }
+void w_child_body(void *self, void *slot, void *padding, void *cluster);
+static _Bool entry_is(struct CSO *e, unsigned var, int dim, double off, int side, unsigned bvar)
+{ return e->varIndex == var && e->dim == dim && bits(e->offset) == bits(off) && e->boundarySide == side && e->boundaryVar == bvar; }
+void h_child_body(void)
+{
+  struct Compound self; struct ClusterM child, parent; struct Box4 padding, mar; void *infos[8]; void *childp = &child; size_t n0;
+  __CPROVER_assume(n0 <= 3 && child.clusterVarId < 1000000 && parent.clusterVarId < 1000000);
+  the_margin = mar;
+  self._subConstraintInfo.d = infos; self._subConstraintInfo.n = n0; self._subConstraintInfo.cap = 8;
+  w_child_body(&self, &childp, &padding, &parent);
+  __CPROVER_assert(self._subConstraintInfo.n == n0 + 4, "SPEC four entries per child cluster");
+  struct CSO *e[4]; for (int k = 0; k < 4; ++k) e[k] = (struct CSO *)infos[n0 + k];
+  for (int d = 0; d < 2; ++d) {
+    double lo = padding.m_min[d] + mar.m_min[d], hi = padding.m_max[d] + mar.m_max[d];
+    _Bool has_lo = 0, has_hi = 0;
+    for (int k = 0; k < 4; ++k) {
+      if (entry_is(e[k], child.clusterVarId, d, lo, 1, parent.clusterVarId)) has_lo = 1;               /* parent.lower + lo <= child.lower */
+      if (entry_is(e[k], child.clusterVarId + 1, d, hi, -1, parent.clusterVarId + 1)) has_hi = 1;      /* child.upper + hi <= parent.upper */
+    }
+    __CPROVER_assert(has_lo, "SPEC the child's LOWER boundary variable is held above the parent's lower one (this dimension)");
+    __CPROVER_assert(has_hi, "SPEC the child's UPPER boundary variable is held below the parent's upper one (this dimension)");
+  }
+  VERIF_CANARY;
+}
+#endif
